@@ -146,6 +146,7 @@ void World::turn_end() {
 	feed_batch_errors_before(-1);
 	flush_pending();
 	batch.clear();
+	c10_turn_end();
 	for (auto &cl : clients) cl.write_attempts_turn = 0;
 	if (mode == "exact") {
 		resolve_silent_decisions();
